@@ -612,7 +612,7 @@ func TestC17WebSocketGobwas(t *testing.T) {
 // TestC17ConcurrentWriters — on the codec the binaries ship, concurrent writers never interleave bytes.
 func TestC17ConcurrentWriters(t *testing.T) {
 	rec := vt.For("C17")
-	rec.Rule("concurrent writers (gorilla codec, -race): K=2-6 goroutines write M=5-40 generated messages each over one WebSocket while the reader's shim splits reads; oracle: every message arrives intact, the multiset equals what was written, each writer's own order is preserved; distinct by (K, M, pattern)")
+	rec.Rule("concurrent writers (gorilla codec, -race): K=2-6 goroutines write M=5-40 generated messages each over one WebSocket while the reader's shim splits reads and - in half of the cases - the far end sends a ping every 100 us (answered by the writing side's read loop in the middle of its writers' messages); oracle: every message arrives intact, the multiset equals what was written, each writer's own order is preserved; distinct by (K, M, pattern)")
 	check(t, func(rt *rapid.T) {
 		client, server, _, sshim, cleanup := wsPair(rt, "gorilla")
 		defer cleanup()
@@ -628,6 +628,41 @@ func TestC17ConcurrentWriters(t *testing.T) {
 				payloads[k] = append(payloads[k], rapid.StringMatching(`[a-zé🚀"\\]{0,40}`).Draw(rt, "payload")+strings.Repeat("p", rapid.SampledFrom([]int{0, 0, 100, 5000}).Draw(rt, "pad")))
 			}
 		}
+		// The far end may ping at any time (keep-alives of WebSocket libraries and proxies do): control frames are
+		// answered by the writing side's read loop while its writers are in the middle of messages.
+		pinging := rapid.Bool().Draw(rt, "farEndPings")
+		stopPing := make(chan struct{})
+		pingDone := make(chan struct{})
+		if pinging {
+			go func() { // the writing side also reads (that is where pings are answered)
+				for {
+					if _, err := client.ReadMessage(); err != nil {
+						return
+					}
+				}
+			}()
+			go func() {
+				defer close(pingDone)
+				for {
+					select {
+					case <-stopPing:
+						return
+					default:
+					}
+					// an unmasked, empty ping frame, server to client, written under the reading codec (which never writes)
+					if _, err := sshim.Conn.Write([]byte{0x89, 0x00}); err != nil {
+						return
+					}
+					time.Sleep(100 * time.Microsecond)
+				}
+			}()
+			if rapid.Bool().Draw(rt, "oneLargeMessage") {
+				payloads[0][0] += strings.Repeat("L", 400000)
+			}
+		} else {
+			close(pingDone)
+		}
+		defer func() { close(stopPing); <-pingDone }()
 		var wg sync.WaitGroup
 		errs := make(chan error, K)
 		for k := 0; k < K; k++ {
@@ -670,8 +705,8 @@ func TestC17ConcurrentWriters(t *testing.T) {
 			rt.Fatalf("writer error: %v", err)
 		default:
 		}
-		rec.Case(fmt.Sprintf("conc|%d|%d|%v", K, M, readPat), true, []string{"ws:concurrent-writers"}, func() interface{} {
-			return map[string]interface{}{"codec": "websocket/gorilla concurrent writers", "writers": K, "messages_each": M, "read_pattern": readPat}
+		rec.Case(fmt.Sprintf("conc|%d|%d|%v|%v", K, M, readPat, pinging), true, []string{"ws:concurrent-writers", fmt.Sprintf("ws:concurrent-writers:far-end-pings:%v", pinging)}, func() interface{} {
+			return map[string]interface{}{"codec": "websocket/gorilla concurrent writers", "writers": K, "messages_each": M, "read_pattern": readPat, "far_end_pings": pinging}
 		})
 	})
 }
